@@ -2,6 +2,7 @@
    (unwrap/expect, checked indexing, usize underflow, push on a full ArrayVec) and
    an exhausted loop bound are `Bug site` values as well; totality is the statement
    that they are unreachable.  Statements only. *)
+From EP Require Parse.GenAccessOk.   (* the field accessors, re-translated from the Rust source on every run (Gen/Accessors.v), equal the hand models the theorems below are about *)
 From EP Require Parse.ConstsOk.
 From EP Require Import Base.Bytes Parse.Types Parse.Slices Parse.Cursor Parse.View
   Parse.WireSpec Parse.StrictProofs.
